@@ -14,20 +14,23 @@ RULE = (
     "scene cases: label images 3..16 x 3..16 with 1-12 objects drawn from {nearest-seed blobs (touching), nested rings, "
     "rectangles clipped at the border, single pixels, one-pixel lines, random speckle (non-contiguous objects), "
     "staircases (a label's bottom row is the next label's top row), background-free tessellations, notches/holes "
-    "exactly filled by other labels, diagonal-only objects next to other labels}, plus 700..1030 x 3..6 scenes and "
-    "scenes with 200-1500 objects; label numbers renumbered into a sparse range (gaps, up to ~70000), dyadic "
+    "exactly filled by other labels, diagonal-only objects next to other labels}, plus 1 x N and N x 1 label images "
+    "(N = 1..12), 700..1030 x 3..6 scenes and scenes with 200-1500 objects; label numbers renumbered into a sparse range (gaps, up to ~70000), dyadic "
     "intensities k/16, a fixed skeleton image per scene; each scene is measured with all twelve measurements on: the "
     "scene with the full (shuffled) request list, each object alone with the other pixels' intensities redrawn, an "
-    "'altered' scene (other objects deleted / merged / recoloured / new objects added to the background), a renumbered "
-    "scene, a permuted and a subset request list, a request list with absent labels, a zero-padded (translated) "
+    "'altered' scene (other objects deleted / merged / recoloured / new objects added to the background; also "
+    "measured with the ORIGINAL request list, so that removed labels - the largest included - stay in the request), "
+    "a renumbered scene, a permuted request list, a strict sub-list, a request list with absent labels "
+    "(always one above every label present, one between / below where one exists), a zero-padded (translated) "
     "scene, (d) the scene in another label dtype (bool, int8..int64, uint8..uint32, one label at the dtype maximum), "
     "intensity dtype (float32/64, integer dtypes scaled to their range), memory layout (Fortran, strided, negative "
     "strides, read-only) and request-list type (list, int32/int64/uint8/uint16/uint32, read-only intp), the first "
-    "call repeated after all the others in the same process, and a check that no input array was modified. Subset / "
-    "absent-label / bool-label requests are only generated inside the domain where the function is defined (see "
-    "'excluded_*' counters). The exact models (areas, extents, perimeters, Euler, median (two models), ellipse "
+    "call repeated after all the others in the same process, and a check that no input array was modified; Haralick "
+    "with nlevels drawn from {4, 8, 16, 32}. Sub-list and absent-label requests are inside the property for every "
+    "measurement (round 6); still excluded and counted ('excluded_*'): feret_diameter when no requested label is "
+    "present, bool label images for ellipse / median / zernike. The exact models (areas, extents, perimeters, Euler, median (two models), ellipse "
     "moments (two models), skeleton length, per-object hull area and solidity, calculate_convex_hull_areas as "
-    "written incl. the exact set of requests on which it raises IndexError, minimum enclosing circle (scalar and "
+    "written (it never raises), minimum enclosing circle (scalar and "
     "vectorised Chrystal), Feret calipers) are compared with the implementation "
     "on the scene, the absent-label request, the renumbered scene and the padded scene. idiom cases: bincount / "
     "anti-index / offsets / Indexes / table_idx_from_labels against NumPy and centrosome. non-trivial = at least two "
@@ -44,6 +47,8 @@ TRUSTED = [
 ASSUMPTIONS = [
     "labels are non-negative and below 2^31; request lists are duplicate-free",
     "intensities in the exact median stream are dyadic (k/16)",
+    "request lists are non-empty; feret_diameter is only called when at least one requested label is present "
+    "(observation F); Haralick without mask, nlevels <= 32",
 ]
 EXHAUSTIVE = {"quick": False, "thorough": False}
 RTOL = 1e-9
@@ -258,6 +263,25 @@ def _long_scene(rng):
     return lab if rng.rand() < 0.5 else lab.T.copy()
 
 
+def _line_scene(rng):
+    """label image with one row or one column (1 x N / N x 1, N = 1..12): runs of labels, gaps, repeated labels"""
+    N = int(rng.randint(1, 13))
+    row = np.zeros(N, int)
+    x, k = 0, 1
+    while x < N:
+        w = int(rng.randint(1, 5))
+        u = rng.rand()
+        if u < 0.65:
+            row[x:x + w] = k
+            k += 1
+        elif u < 0.8 and k > 1:
+            row[x:x + w] = int(rng.randint(1, k))        # a non-contiguous object
+        x += w
+    if row.max() == 0:
+        row[int(rng.randint(N))] = 1
+    return row.reshape(1, N) if rng.rand() < 0.5 else row.reshape(N, 1)
+
+
 def _many_scene(rng):
     """200+ objects in one call"""
     H, W = int(rng.randint(30, 46)), int(rng.randint(30, 46))
@@ -288,7 +312,8 @@ def _variant(rng, n):
 
 def _make_scene_case(rng, small=False, big=True, special=None):
     while True:
-        dense = _long_scene(rng) if special == "long" else _many_scene(rng) if special == "many" else _scene(rng, small)
+        dense = (_long_scene(rng) if special == "long" else _many_scene(rng) if special == "many"
+                 else _line_scene(rng) if special == "line1" else _scene(rng, small))
         n = int(dense.max())
         if n >= 1:
             break
@@ -297,6 +322,8 @@ def _make_scene_case(rng, small=False, big=True, special=None):
         u, inv = np.unique(dense, return_inverse=True)
         dense = inv.reshape(dense.shape) if u[0] == 0 else inv.reshape(dense.shape) + 1
         n = int(dense.max())
+    if special == "line1":
+        special = None                                   # a small scene: every run, Zernike included
     H, W = dense.shape
     nums = _sparse_numbers(rng, n, big)
     lab = _renumber(dense, nums)
@@ -316,8 +343,10 @@ def _make_scene_case(rng, small=False, big=True, special=None):
     ab = []
     if absent:
         ab.append(int(rng.choice(absent)))
-    if rng.rand() < 0.5:
-        ab.append(int(max(present) + rng.randint(1, 50)))
+    if min(present) > 1 and rng.rand() < 0.5:
+        ab.append(int(rng.randint(1, min(present))))       # smaller than every label present
+    ab.append(int(max(present) + rng.randint(1, 50)))       # larger than every label present
+    ab = sorted(set(ab))
     mix = idx + ab
     c["absent"] = [int(v) for v in rng.permutation(mix)]
     # renumbering (into a different sparse range, some large)
@@ -348,6 +377,7 @@ def _make_scene_case(rng, small=False, big=True, special=None):
     c["keep"] = keep
     c["img2"] = rng.randint(0, 17, (H, W)).tolist()
     c["hscale"] = [int(v) for v in [(3, 0), (3, 0), (0, 1), (1, 1), (2, -1), (1, 0)][int(rng.randint(6))]]
+    c["nlevels"] = int(rng.choice([4, 8, 16, 32]))
     c["var"] = _variant(rng, n)
     if special:
         c["special"] = special
@@ -366,7 +396,7 @@ def _make_idiom_case(rng):
     counts = rng.randint(0, 5, int(rng.randint(1, 8))).tolist()
     if rng.rand() < 0.1:
         counts = [0] * len(counts)
-    H, W = int(rng.randint(2, 7)), int(rng.randint(2, 7))      # table_idx_from_labels needs both dimensions >= 2
+    H, W = int(rng.randint(1, 7)), int(rng.randint(1, 7))      # 1 x N and N x 1 included
     im = rng.randint(0, 3, (H, W)).tolist()
     return {"fn": "idiom", "labs": labs, "ws": ws, "m": m, "idxs": idxs, "counts": counts, "im": im}
 
@@ -388,6 +418,7 @@ def _corpus():
                   "renum": [[v, 3 * v + 100] for v in present], "renum_small": [[v, len(present) + 1 - k] for k, v in enumerate(present)],
                   "pad": list(pad), "targets": present[:5], "alt": np.where(lab == present[0], lab, 0).tolist(),
                   "keep": present[:1], "img2": rng.randint(0, 17, (H, W)).tolist(), "hscale": [3, 0],
+                  "nlevels": [4, 8, 16, 32][len(out) % 4],
                   "var": {"ldt": LDTYPES[len(out) % 8], "idt": IDTYPES[len(out) % 7], "layout": LAYOUTS[len(out) % 5],
                           "idxt": IDXTYPES[len(out) % 7], "atmax": True}})
         out.append(c)
@@ -398,6 +429,19 @@ def _corpus():
     mk([[7, 0, 9], [0, 0, 0], [9, 0, 7]])                            # non-contiguous objects, border
     mk([[0, 0, 0, 0], [0, 4, 4, 0], [0, 4, 4, 0], [0, 0, 0, 0], [2, 2, 2, 2], [2, 0, 0, 2], [2, 2, 2, 2]], idx=[4, 2])
     mk([[1, 1, 0, 60000, 60000], [1, 1, 0, 60000, 60000], [0, 0, 0, 0, 0], [3, 3, 3, 3, 3], [3, 3, 3, 3, 3], [3, 3, 3, 3, 3]])
+    # round 6: one-row / one-column images, sub-list requests below the largest label, absent labels above it,
+    # Haralick with 16 grey levels (the hunt's witnesses)
+    mk([[0, 1, 1, 0]], pad=(1, 1, 0, 0))
+    mk([[1]], pad=(0, 1, 2, 0))
+    mk([[2], [2], [0], [1]], pad=(0, 0, 1, 0))
+    z = np.zeros((7, 9), int); z[1:4, 1:5] = 1; z[4:6, 5:8] = 2
+    mk(z.tolist(), idx=[1, 2])
+    z = np.zeros((5, 8), int); z[1:4, 1:3] = 1; z[1:4, 5:7] = 2
+    mk(z.tolist(), idx=[1, 2])
+    out[-1]["alt"] = np.where(z == 1, 1, 0).tolist()
+    mk([[1, 1, 1, 1], [0, 0, 0, 0], [2, 2, 2, 2]], idx=[1, 2], pad=(0, 0, 0, 0))
+    out[-1].update({"img": [[0, 3, 6, 16], [0, 0, 0, 0], [16, 10, 10, 0]], "hscale": [0, 1], "nlevels": 16,
+                    "renum_small": [[1, 1], [2, 2]]})
     return out
 
 
@@ -418,6 +462,8 @@ def generate(ctx):
     cases = _corpus_files() + _corpus()
     for _ in range(ctx.n(220, 2600)):
         cases.append(_make_scene_case(rng, small=rng.rand() < 0.25))
+    for _ in range(ctx.n(24, 300)):
+        cases.append(_make_scene_case(rng, special="line1"))
     for _ in range(ctx.n(2, 16)):
         cases.append(_make_scene_case(rng, big=False, special="long"))
     for _ in range(ctx.n(2, 12)):
@@ -434,23 +480,14 @@ def generate(ctx):
 
 # ----------------------------------------------------------------------------- domain of the four partial functions
 
+# Round 6 (coordinator's ruling): sub-list requests and requests naming absent labels - smaller or larger than every
+# label present - are INSIDE the property.  The former observations Z (zernike with max(idx) < max(labels)), E
+# (ellipse_from_second_moments with a requested label above max(labels)) and H (calculate_convex_hull_areas / solidity
+# with a requested label above the largest hull label) are defects; nothing is excluded for them any more.
+
 def _zern_ok(lab, idx):
-    """zernike raises IndexError when max(idx) < max(labels) (observation Z)"""
-    return len(idx) > 0 and max(idx) >= int(np.max(lab))
-
-
-def _ell_ok(lab, idx):
-    """ellipse_from_second_moments raises when a requested label exceeds max(labels) (observation E)"""
-    return len(idx) == 0 or not np.any(lab) or max(idx) <= int(np.max(lab))
-
-
-def _hull_ok(lab, idx):
-    """calculate_convex_hull_areas / solidity raise when a requested label exceeds the largest requested label
-    that has a hull point (observation H)"""
-    pres = [v for v in idx if np.any(lab == v)]
-    if not pres:
-        return True
-    return max(idx) <= max(pres)
+    """zernike takes max(indexes): an empty request list is outside"""
+    return len(idx) > 0
 
 
 def _feret_ok(lab, idx):
@@ -458,8 +495,7 @@ def _feret_ok(lab, idx):
     return any(np.any(lab == v) for v in idx)
 
 
-DOMAIN = {"zernike": _zern_ok, "ell": _ell_ok, "ell_w": _ell_ok, "charea": _hull_ok, "solidity": _hull_ok,
-          "feret": _feret_ok}
+DOMAIN = {"zernike": _zern_ok, "feret": _feret_ok}
 
 
 def _count_domain(ctx, c):
@@ -505,13 +541,13 @@ def _measures(lab, img, idx, sk, skip=(), ia=None, imf=None, imw=None):
                 out[n] = {"exc": type(e).__name__, "msg": str(e)[:120]}
 
     run(["ell_center", "ell_ecc", "ell_major", "ell_minor", "ell_theta", "ell_comp"],
-        lambda: M.ellipse_from_second_moments(np.ones(lab.shape), lab, ia, True), "ell")
+        lambda: M.ellipse_from_second_moments(np.ones(lab.shape), lab, ia, True))
     run(["ell_w_center", "ell_w_ecc", "ell_w_major", "ell_w_minor", "ell_w_theta", "ell_w_comp"],
-        lambda: M.ellipse_from_second_moments(imw, lab, ia, True), "ell_w")
+        lambda: M.ellipse_from_second_moments(imw, lab, ia, True))
     run(["perim"], lambda: [M.calculate_perimeters(lab, ia)])
     run(["euler"], lambda: [M.euler_number(lab, ia)])
-    run(["charea"], lambda: [M.calculate_convex_hull_areas(lab, ia)], "charea")
-    run(["solidity"], lambda: [M.calculate_solidity(lab, ia)], "solidity")
+    run(["charea"], lambda: [M.calculate_convex_hull_areas(lab, ia)])
+    run(["solidity"], lambda: [M.calculate_solidity(lab, ia)])
     run(["extent"], lambda: [M.calculate_extents(lab, ia)])
     run(["area"], lambda: [M.fixup_scipy_ndimage_result(scind.sum(np.ones(lab.shape), lab, ia))])
     run(["mec_c", "mec_r"], lambda: M.minimum_enclosing_circle(lab, ia))
@@ -542,11 +578,11 @@ def _pair_mask(m, si, sj):
     return bool(a.shape == b.shape and a.size > 0 and (a & b).any())
 
 
-def _haralick(lab, img, scale):
-    return _haralick_raw(lab, img / 16.0, scale)
+def _haralick(lab, img, scale, nlevels=8):
+    return _haralick_raw(lab, img / 16.0, scale, nlevels)
 
 
-def _haralick_raw(lab, imf, scale):
+def _haralick_raw(lab, imf, scale, nlevels=8):
     """features x objects for labels 1..max, plus which labels contain a co-occurring pair"""
     from centrosome import haralick as Hk
     si, sj = scale
@@ -554,7 +590,7 @@ def _haralick_raw(lab, imf, scale):
     if n == 0:
         return {"f": [], "pair": []}
     try:
-        h = Hk.Haralick(imf, lab, si, sj)
+        h = Hk.Haralick(imf, lab, si, sj, nlevels)
         f = np.array(h.all(), float)                      # 13 x n
     except Exception as e:                                # noqa
         return {"exc": type(e).__name__, "msg": str(e)[:120]}
@@ -703,28 +739,29 @@ def impl(case):
     # Haralick (labels 1..max only: use the small renumbering as the base scene)
     labs = _apply_map(lab, case["renum_small"])
     hs = case["hscale"]
-    o["har"] = _haralick(labs, img, hs)
-    o["har_pad"] = _haralick(np.pad(labs, pw), np.pad(img, pw), hs)
+    nl = case.get("nlevels", 8)
+    o["har"] = _haralick(labs, img, hs, nl)
+    o["har_pad"] = _haralick(np.pad(labs, pw), np.pad(img, pw), hs, nl)
     o["har_alone"] = {}
     ms = dict((a, b) for a, b in case["renum_small"])
     for l in case["targets"][:3]:
         k = ms[l]
-        o["har_alone"][str(k)] = _haralick(np.where(labs == k, labs, 0), np.where(labs == k, img, img2), hs)
+        o["har_alone"][str(k)] = _haralick(np.where(labs == k, labs, 0), np.where(labs == k, img, img2), hs, nl)
     # second small renumbering = reversed order of the first
     n = int(labs.max())
     rev = n + 1 - labs
     rev[labs == 0] = 0
-    o["har_rev"] = _haralick(rev, img, hs)
+    o["har_rev"] = _haralick(rev, img, hs, nl)
     # (d) other dtypes / layouts / request-list types; Haralick with float32 intensities and the variant layout
     if "var" in case:
         o["var"] = _var_run(case, lab, img, sk)
         v = case["var"]
         ldt = v["ldt"] if v["ldt"] != "bool" and labs.max() <= np.iinfo(v["ldt"]).max else "int64"
         o["har_var"] = _haralick_raw(_layout(labs.astype(ldt), v["layout"]),
-                                     _layout((img / 16.0).astype("float32" if v["idt"] == "float32" else "float64"), v["layout"]), hs)
+                                     _layout((img / 16.0).astype("float32" if v["idt"] == "float32" else "float64"), v["layout"]), hs, nl)
         # several calls in one process: the first call again, after everything else
         o["again"] = _measures(lab, img, idx, sk)
-        o["har_again"] = _haralick(labs, img, hs)
+        o["har_again"] = _haralick(labs, img, hs, nl)
         o["mutated"] = not (np.array_equal(lab, keep0[0]) and np.array_equal(img, keep0[1]) and np.array_equal(sk, keep0[2]))
     return o
 
@@ -907,13 +944,9 @@ def _compare_scene(tag, margs, m, o):
         return "%s: model skeleton_length gather failed" % tag
     if [v / 16777216.0 for v in skl[0]] != o["skel_len"]:
         return "%s: skeleton lengths differ: impl %s model %s" % (tag, o["skel_len"], skl[0])
-    # ellipse: the model also says where the code raises
+    # ellipse: every request list of non-negative labels is defined (round 6: tables of size max(indexes) + 1)
     if ell == 0:
-        if _ell_ok(lab, idx):
-            return "%s: model predicts IndexError inside the declared domain" % tag
-        return None
-    if not _ell_ok(lab, idx):
-        return "%s: model does not raise outside the declared ellipse domain" % tag
+        return "%s: ellipse model could not gather the requested rows (request %s)" % (tag, idx)
     if not isinstance(o.get("ell_center"), list):
         return "%s: implementation raised in ellipse_from_second_moments: %s" % (tag, o.get("ell_center"))
     if ell == 1:
@@ -978,12 +1011,8 @@ def _compare_hull_areas_vec(lab, idx, hullv, hav, harea, o, run):
     """the as-written model of calculate_convex_hull_areas: where it raises, and its values"""
     if isinstance(hav, dict):
         return "%s: hull area (as written) model error %s" % (run, hav)
-    if hav == []:                               # the model predicts IndexError
-        if _hull_ok(lab, idx):
-            return "%s: as-written hull area model predicts IndexError inside the declared domain (request %s)" % (run, idx)
-        return None
-    if not _hull_ok(lab, idx):
-        return "%s: as-written hull area model does not raise outside the declared domain (request %s)" % (run, idx)
+    if hav == []:                               # round 6: the label tables cover max(indexes); never an IndexError
+        return "%s: as-written hull area model ran out of its label tables (request %s)" % (run, idx)
     rows = hav[0]
     if harea is not None and rows != harea:
         return "%s: as-written hull area model %s differs from the per-object model %s" % (run, str(rows)[:200], str(harea)[:200])
@@ -1221,7 +1250,8 @@ def _check_scene0(case, o, counter):
     ab = [l for l in case["absent"] if l not in idx]
     for l in ab:
         k = case["absent"].index(l)
-        for name, want in (("area", 0.0), ("perim", 0.0), ("euler", 0.0), ("extent", 0.0), ("skel_len", 0.0), ("mec_r", 0.0)):
+        for name, want in (("area", 0.0), ("perim", 0.0), ("euler", 0.0), ("extent", 0.0), ("skel_len", 0.0), ("mec_r", 0.0),
+                           ("charea", 0.0)):
             v = _entry(o["absent"], name, k)
             if isinstance(v, dict) or v != want:
                 return "absent label %d: %s = %r (expected %r)" % (l, name, v, want)
@@ -1491,7 +1521,7 @@ MANIFEST = {
         "ALL directions (min over edges of max cross^2/|edge|^2 = min over u of (projection extent)^2/|u|^2, exact "
         "integers). The models are tied to the code by exact comparison of complete outputs on generated "
         "scenes; for all twelve measurements the three relations of the property are evaluated on the "
-        "implementation itself (two-run)."),
+        "implementation itself (two-run), on sub-list requests and requests naming absent labels included."),
     "level_note": (
         "Trusted: Coq kernel + vm_compute; extraction and the S-expression driver; the Python harness (the two-run "
         "relations are evaluated in Python: floats never cross into Coq); scipy.ndimage label reductions as "
